@@ -1,5 +1,5 @@
 ---------------------------- MODULE Gen_AsyncMod ----------------------------
 EXTENDS MC_AsyncMod, Json
-ObsOut == [prog |-> prog, obs |-> obs, unfinished |-> Unfinished, amb |-> amb]
+ObsOut == [prog |-> prog, obs |-> obs, unfinished |-> Unfinished, panicked |-> Panicked, amb |-> amb]
 Emit == (done /\ ~amb) => PrintT(<<"REPLAY", ToJson(ObsOut)>>)
 =============================================================================
